@@ -3,7 +3,7 @@ From Coq Require Import String List Bool Arith NArith.
 Local Open Scope string_scope.
 Local Open Scope list_scope.
 Import ListNotations.
-Require Import Kinds PyStr Line Matcher MatcherMd Dialects KeywordFacts.
+Require Import Kinds PyStr Line Matcher MatcherMd Dialects KeywordFacts MdFacts.
 
 (* one to six '#', one whitespace character, a listed keyword, ':' -- any clash-free keyword list
    (every title list of every dialect is: C05_table_conditions): keyword, trimmed title, column of the keyword *)
@@ -34,8 +34,42 @@ Theorem C19_table : forall text, md_table_indent text = true ->
 Proof. exact md_table_indent_spec. Qed.
 Print Assumptions C19_table.
 
-(* steps, tags, separator rows: executable examples in the kernel (the unbounded statements for these
-   are carried by the exhaustive enumeration against the implementation; DESIGN 6.C19) *)
+(* a list item: blanks, one of '*', '+', '-', blanks, then text -- a step whose keyword is the first listed keyword
+   that prefixes the text (which does not begin with a blank: no step keyword does), whose text is the trimmed rest,
+   at the column of the keyword; any keyword list *)
+Theorem C19_step : forall m t (ks : list str) (k ws bl rest : str) (b : N) n,
+  let line := ws ++ [b] ++ bl ++ k ++ rest in
+  forallb is_space ws = true -> is_bullet b = true -> forallb is_space bl = true ->
+  match k ++ rest with [] => True | c :: _ => is_space c = false end ->
+  first_kw ks [] (k ++ rest) = Some k ->
+  md_title m t (make_line line n) false ks [] KStepLine
+  = Some (set_matched m t KStepLine (Some (strip (dot_star rest))) (Some k) None (Some (length ws + 1 + length bl)%nat) []).
+Proof. exact md_step_recognised. Qed.
+Print Assumptions C19_step.
+
+(* the hypothesis on the first character holds for every listed step keyword of every dialect *)
+Theorem C19_step_keywords_start_nonblank :
+  forallb (fun d => forallb kw_starts_nonblank (step_keywords d)) dialects = true.
+Proof. exact step_keywords_start_nonblank. Qed.
+Print Assumptions C19_step_keywords_start_nonblank.
+
+(* a line whose first non-blank character is not a bullet is not a step *)
+Theorem C19_negative_no_bullet : forall m t l ks ty,
+  match l_trimmed l with [] => True | c :: _ => is_space c = false /\ is_bullet c = false end ->
+  md_title m t l false ks [] ty = None.
+Proof. exact md_no_bullet_no_step. Qed.
+Print Assumptions C19_negative_no_bullet.
+
+(* tags: a line made of text, `@tag`, text, `@tag`, ..., text (the texts and the tag bodies free of backticks, the
+   bodies non-empty) yields exactly those tags, each at the offset of its opening backtick (the matcher adds the
+   indentation and 2: the 1-based column of the '@') *)
+Theorem C19_tags : forall items tail fuel pos, forallb item_ok items = true -> tick_free tail = true ->
+  (length (render items tail) <= fuel)%nat ->
+  md_tags_from fuel (render items tail) pos = tag_positions items pos.
+Proof. exact md_tags_spec. Qed.
+Print Assumptions C19_tags.
+
+(* executable examples in the kernel (backticks that do not pair up as above, separator rows) *)
 Example C19_step_example :
   option_map (fun t => (m_keyword t, m_text t, m_indent t))
     (md_title (mk_mstate [] [] (Build_dialect [] [] [] [] [] [] [] [s2l "Given "; s2l "* "] [] [] [] []) None 0)
